@@ -163,6 +163,11 @@ def build_grammar(kind, gp):
         else:
             g = CFG.depth_constraint(dsl, treq, bound, min_var, n_gram, False, consts)
         if kind == "cfgdfa":
+            # TTCFG.clean() of a product is very slow on huge languages (minutes for 10^8 programs):
+            # lower the bound on the cheap CFG count first
+            if g.programs() > 40 * CAP and bound > 1:
+                bound -= 1
+                continue
             g = g * counting_dfa(g, constraint)
         n = g.programs()
         if 0 <= n <= CAP or bound <= 1:
